@@ -90,7 +90,8 @@ DeleteDnets(s, x, D) ==
     /\ s \in attached
     /\ LET R       == routers[s]
            victims == {d \in D : <<s, d>> \in DOMAIN path /\ (x = NoAddr \/ path[<<s, d>>] = x)}
-           keep    == {b \in DOMAIN R : (DOMAIN R[b]) \cap victims = {} \/ (DOMAIN R[b]) \ victims # {}}
+           \* a router left without destinations disappears: the named one in any case, others if they lost one
+           keep    == {b \in DOMAIN R : (DOMAIN R[b]) \ victims # {} \/ (b # x /\ (DOMAIN R[b]) \cap victims = {})}
        IN  IF x # NoAddr /\ Dev_DeleteDnetsDropsRouter /\ x \in DOMAIN R
            THEN /\ routers' = [routers EXCEPT ![s] = Restrict(R, (DOMAIN R) \ {x})]
                 /\ path' = Restrict(path, {k \in DOMAIN path : ~(k[1] = s /\ k[2] \in D)})
